@@ -174,29 +174,39 @@ CLAIMS = {
              'decoders; pairing model of C04; regenerated rows for the syscall path arguments; UTF-8 decoding is a library oracle',
         technique='Coq proof (encoder/reassembler round trip, pairing spec) + correspondence', ref='DESIGN.md §5 C08'),
     'C13': dict(
-        text='Coq theorems c13_helpers_not_reported (for every configuration and code: fed && post_keep = requested), '
-             'c13_machine_commutes (the pairing machine commutes with ANY filter on the event code: same traces, same order, '
-             'windows restricted), c13_commute_class, c13_commute_tid, c13_closed + c13_bsd_feeds_lookups + '
-             'c13_trace_class_always_fed (what a decoder reads is always fed), c13_idempotent; closed under the global context. '
-             'Correspondence through the public API with request sequences on one object (traces, callstacks, kevents mixed), '
-             'tuple-valued class filters, process filter against the process column of the unfiltered listing. A genuine defect '
-             'found while modelling (a requested subclass of a helper class was dropped) was repaired by fix commit 5a9c12c.',
-        note='trusted: Coq kernel+vm_compute; hand model FiltersTraces.v of traces() over the pairing model of C04, validated '
-             'each run; identical TEXT is argued from the regenerated rows\' read sets and compared differentially; subclass '
-             'commutation is claimed for BSD subclasses as the property states',
-        technique='Coq proof (filter/pairing commutation by induction over histories) + API-level correspondence',
-        ref='DESIGN.md §5 C13'),
+        text='Coq theorems c13_all_filters (the WHOLE request - selection with helper classes, pairing, table writes of the '
+             'decoders, thread / process / helper post-filters - yields exactly the traces of the run with NO filter that '
+             'satisfy the thread, process and class filters, the process judged with the tables the unfiltered run has at that '
+             'trace; same order, same tables, windows restricted to the fed records; hypothesis checked by c13_writer_classes '
+             'and on the source), c13_helpers_not_reported, c13_machine_commutes, c13_commute_class, c13_commute_tid, '
+             'c13_closed + c13_bsd_feeds_lookups + c13_trace_class_always_fed, c13_idempotent; closed under the global '
+             'context. Correspondence through the public API: class/tid requests and ALL-filter requests against the Coq '
+             'pipeline (FiltersPipelineCases), request sequences on one object incl. a change of settings, tuple-valued class '
+             'filters, and every filtered request against the unfiltered reference run. Three genuine defects found while '
+             'modelling were repaired (fix commits 5a9c12c, 6e4e623, 1010d07).',
+        note='trusted: Coq kernel+vm_compute; hand models FiltersTraces.v / FiltersPipeline*.v of traces() over the pairing '
+             'model of C04 and the table model of C14, validated each run; identical TEXT of decoders that do not read the '
+             'tables is argued from the regenerated rows\' read sets and compared differentially; subclass commutation is '
+             'claimed for BSD subclasses as the property states',
+        technique='Coq proof (pipeline commutation by induction over histories, generic table machine instantiated) + '
+                  'API-level correspondence',
+        ref='DESIGN.md §5 C13, §10'),
     'C14': dict(
-        text='Coq theorems c14_event_line / c14_trace_line / c14_callstack_line (every line is the concatenation, in a fixed '
-             'order, of its enabled columns, the column texts not depending on the switches - for all 2^6 settings as arbitrary '
-             'booleans), c14_padding_never_truncates, c14_process_column + c14_lines_incremental (line k names the process '
-             'declared by the thread map as superseded by the table-writing records up to trace k, never by later ones), '
-             'c14_undeclared_unknown, c14_declared; closed under the global context. End-to-end correspondence dump -> events -> '
-             'pairing model -> table evolution -> lines for all 64 settings; callstack lines; colouring checked differentially.',
-        note='partial: colouring (pygments/termcolor), the datetime branch of the timestamp column and formatted_logs are outside '
-             'the model (colour compared with ANSI codes stripped). trusted: Coq kernel+vm_compute; hand model Format.v '
-             '(f-string padding by code points, repr(bytes), table writes of the trace/sampler decoders) validated each run',
-        technique='Coq proof (column algebra; incremental table evolution) + end-to-end correspondence', ref='DESIGN.md §5 C14'),
+        text='Coq theorems c14_event_line / c14_trace_line / c14_callstack_line / c14_log_line (every line is the concatenation, '
+             'in a fixed order, of its enabled columns, the column texts not depending on the switches - for all settings as '
+             'arbitrary booleans), c14_colour_keeps_text (a coloured log line with its SGR sequences removed IS the plain line), '
+             'c14_padding_never_truncates, c14_process_column + c14_lines_incremental (line k names the process declared by the '
+             'thread map as superseded by the table-writing records up to trace k, never by later ones), c14_undeclared_unknown, '
+             'c14_declared; closed under the global context. End-to-end correspondence dump -> events -> pairing model -> table '
+             'evolution -> lines for all 64 settings; callstack lines; log lines (switches x colour, byte-exact incl. escape '
+             'sequences); trace colouring checked differentially on the texts the streams produce. Two genuine defects in log '
+             'lines repaired (fix commits 7483dab, 5d07f26).',
+        note='partial: pygments highlighting of trace lines and the datetime branch of the timestamp column are outside the '
+             'model (trace colour compared with escape sequences stripped; the date text of a log line is a parameter). '
+             'trusted: Coq kernel+vm_compute; hand models Format.v / FormatLog.v (f-string padding by code points, repr(bytes), '
+             'termcolor SGR wrapping, table writes of the trace/sampler decoders) validated each run',
+        technique='Coq proof (column algebra; escape-sequence stripping; incremental table evolution) + end-to-end correspondence',
+        ref='DESIGN.md §5 C14, §10'),
     'C12': dict(
         text='Coq theorems c12_events/sat_meaning/logs/no_logs_in_events/no_events_in_logs: for EVERY stream and EVERY '
              'configuration the filtered listings equal `filter` of the unfiltered listing by the stated predicate (order and '
